@@ -173,7 +173,7 @@ class C14(core.Check):
             fixed = [[(last, "d"), (1, "d")], [(last, "d"), (last, "d")], [(1, "d"), (0, "d"), (1, "d")], [(last, "c"), (last, "d"), (0, "c"), (1, "d")],
                      [(0, "d"), (0, "d")], [(1, "d"), (1, "c"), (1, "d")]]
             seqs += fixed
-            for _ in range(20 if self.quick else 150):
+            for _ in range(20 if self.quick else 600):
                 ln = 12 if self.quick else 50
                 seqs.append([r.choice(reqs) for _ in range(ln)])
             for s in seqs:
